@@ -236,7 +236,7 @@ func getObjectValueFromKey(v interface{}, key string) (interface{}, error) {
 	switch rt.Kind() {
 	case reflect.Map:
 		mv := rv.MapIndex(reflect.ValueOf(key))
-		if mv.Kind() == 0 || mv.IsZero() {
+		if !mv.IsValid() {
 			return nil, nil
 		}
 		return mv.Interface(), nil
